@@ -10,7 +10,8 @@ COQ_PREAMBLE = "Open Scope Q_scope.\n"
 MODEL_FILES = ["Model/M_Resample.v", "Model/M_Wrappers.v"]
 RULE = ("cases = (WCS family lin|tan|tan_split|rot, shape of 1-4 dims with several divisors, divisor bin shape, source = "
         "plain | sliced | already rebinned cube, 0-3 lookup-table extra coords (Quantity / Time / SkyCoord) on binned "
-        "and unbinned axes); sampled with the run's seed; distinct by key; non-trivial = some bin factor > 1")
+        "and unbinned axes, or one coordinate spanning several axes in any axis order: 2-D SkyCoord table, two-table Quantity "
+        "coordinate, WCS-backed ExtraCoords with any mapping); sampled with the run's seed; distinct by key; non-trivial = some bin factor > 1")
 ASSUMPTIONS = ["linear probe WCS is decoded exactly (world = crval + cdelt*pixel); other families are compared by the direct "
                "oracle against the source WCS evaluated at j*f+(f-1)/2", "tables are compared with np.interp of the source table "
                "(Time tables to 1e-5 s: astropy interpolates Time through floating-point days)"]
@@ -48,10 +49,26 @@ def gen(tier, rng):
         for _t in range(rng.choice([0, 1, 1, 2, 3])):
             kinds = ["q", "q"] + [k for k in ("time", "sky") if k not in [t[0] for t in tabs]]   # one Time / SkyCoord at most
             tabs.append([rng.choice(kinds), rng.randrange(nd), rng.randrange(10 ** 6)])
-        key = f"{fam}|{shape}|{pre}|{pre_arg}|{bins}|{tabs}"
-        cases.append({"key": key, "stratum": f"{fam}-{pre}", "fam": fam, "shape": shape, "pre": pre, "pre_arg": pre_arg,
-                      "bins": bins, "tabs": tabs, "nontrivial": any(b > 1 for b in bins),
-                      "show": {"wcs": fam, "shape": shape, "source": [pre, pre_arg], "bin_shape": bins, "extra_coords": tabs}})
+        ec2 = None
+        if nd >= 2 and rng.random() < 0.25:
+            # extra coords coupled to / spanning several cube axes, attached in any axis order
+            tabs = []
+            k = rng.choice(["sky2", "q2", "wcsec"])
+            if k == "wcsec":
+                ne = rng.randint(1, nd)
+                new = rng.choice([1, 2, 3])
+                emat = [[int(rng.random() < 0.6) for _ in range(ne)] for _ in range(new)]
+                for r_ in emat:
+                    if not any(r_):
+                        r_[rng.randrange(ne)] = 1
+                ec2 = {"k": k, "mapping": rng.sample(range(ne), ne), "mat": emat}
+            else:
+                ec2 = {"k": k, "axes": rng.sample(range(nd), 2), "seed": rng.randrange(10 ** 6)}
+        key = f"{fam}|{shape}|{pre}|{pre_arg}|{bins}|{tabs}|{ec2}"
+        cases.append({"key": key, "stratum": f"{fam}-{pre}" if not ec2 else f"ec-{ec2['k']}", "fam": fam, "shape": shape, "pre": pre, "pre_arg": pre_arg,
+                      "bins": bins, "tabs": tabs, "ec2": ec2, "nontrivial": any(b > 1 for b in bins),
+                      "show": {"wcs": fam, "shape": shape, "source": [pre, pre_arg], "bin_shape": bins, "extra_coords": tabs,
+                               "coupled_extra_coords": ec2}})
     return cases
 
 
@@ -71,6 +88,62 @@ def _table(kind, n, seed):
     lon = (np.abs(vals) / 8 * u.deg).to(lon_u)
     lat = ((vals / 16) * u.deg).to(lat_u)
     return SkyCoord(lon, lat)
+
+
+def _add_coupled(cube, ec2):
+    import astropy.units as u
+    from astropy.coordinates import SkyCoord
+    from ndcube.extra_coords.table_coord import SkyCoordTableCoordinate, QuantityTableCoordinate
+    shape = cube.data.shape
+    if ec2["k"] == "wcsec":
+        from astropy.wcs.wcsapi import HighLevelWCSWrapper
+        from ndcube import ExtraCoords
+        from harness.impl import make_probe_rect
+        P = [1, 2, 3, 5, 7, 11, 13, 17, 19]
+        A = [[P[(3 * r + c) % len(P)] * x for c, x in enumerate(row)] for r, row in enumerate(ec2["mat"])]
+        ec = ExtraCoords(ndcube=cube)
+        ec.wcs = HighLevelWCSWrapper(make_probe_rect(A, [1000 * (k + 1) for k in range(len(A))], [f"custom:x{k}" for k in range(len(A))]))
+        ec.mapping = tuple(ec2["mapping"])
+        cube._extra_coords = ec
+        return
+    a, b = ec2["axes"]
+    rs = np.random.RandomState(ec2["seed"])
+    ta = np.cumsum(rs.randint(1, 5, size=shape[a])).astype(float)
+    tb = np.cumsum(rs.randint(1, 5, size=shape[b])).astype(float) * 0.5
+    if ec2["k"] == "q2":
+        cube.extra_coords.add(("qa", "qb"), (a, b), QuantityTableCoordinate(ta * u.m, tb * u.m, names=("qa", "qb"),
+                                                                             physical_types=("custom:qa", "custom:qb")))
+    else:
+        # one entry per pixel: table dimension 0 lies along cube axis a, dimension 1 along b
+        lon = ta[:, None] + tb[None, :] / 8
+        lat = (tb[None, :] - ta[:, None] / 16) / 2
+        cube.extra_coords.add(("lon", "lat"), (a, b), SkyCoordTableCoordinate(SkyCoord(lon * u.deg, lat * u.deg), mesh=False))
+
+
+def _coupled_fail(src, r, bins, nout):
+    nd = src.data.ndim
+    try:
+        sec, rec = src.extra_coords, r.extra_coords
+        sl, rl = sec.wcs.low_level_wcs, rec.wcs.low_level_wcs
+        sm, rm = [int(m) for m in sec.mapping], [int(m) for m in rec.mapping]
+        if sm != rm:
+            return f"extra coords mapping changed by rebin: {sm} -> {rm}"
+        if list(sl.world_axis_physical_types) != list(rl.world_axis_physical_types):
+            return "extra coords physical types changed by rebin"
+        grids = np.meshgrid(*[np.arange(n) for n in nout], indexing="ij")
+        rp = [grids[nd - 1 - m].astype(float) for m in rm]
+        sp = [grids[nd - 1 - m] * bins[nd - 1 - m] + (bins[nd - 1 - m] - 1) / 2 for m in sm]
+        wr, ws = rl.pixel_to_world_values(*rp), sl.pixel_to_world_values(*sp)
+        wr = [wr] if rl.world_n_dim == 1 else list(wr)
+        ws = [ws] if sl.world_n_dim == 1 else list(ws)
+    except Exception as e:  # noqa
+        return f"extra coords of the rebinned cube cannot be evaluated: {exc_name(e)}"
+    for k, (x, y) in enumerate(zip(wr, ws)):
+        x, y = np.asarray(x, dtype=float), np.asarray(y, dtype=float)
+        if x.shape != y.shape or not np.allclose(x, y, rtol=1e-9, atol=1e-9):
+            return (f"extra world axis {k}: the rebinned cube's extra coords report {x.ravel()[:6].tolist()}..., the source's extra "
+                    f"coords at the block centres are {y.ravel()[:6].tolist()}...")
+    return ""
 
 
 def _time_table(cube):
@@ -109,18 +182,38 @@ def run(case):
         ptypes = {"q": f"custom:c{i}", "time": None, "sky": None}[kind]
         cube.extra_coords.add((f"c{i}", f"c{i}b") if kind == "sky" else f"c{i}", ax, _table(kind, shape[ax], seed),
                               physical_types=ptypes)
+    ec2 = case.get("ec2")
+    if ec2:
+        _add_coupled(cube, ec2)
     src = cube
-    if case["pre"] == "sliced":
-        src = cube[Q.dec_items(case["pre_arg"])]
-    elif case["pre"] == "rebinned":
-        src = cube.rebin(tuple(case["pre_arg"]))
     bins = tuple(case["bins"])
     why = []
     try:
+        if case["pre"] == "sliced":
+            src = cube[Q.dec_items(case["pre_arg"])]
+        elif case["pre"] == "rebinned":
+            src = cube.rebin(tuple(case["pre_arg"]))
         r = src.rebin(bins)
     except Exception as e:  # noqa
+        finding = None
+        if ec2 and ec2["k"] == "q2" and isinstance(e, ValueError) and "same shape" in str(e):
+            # known finding: a Quantity coordinate of two tables on two axes cannot be resampled to axes of different lengths
+            a, b = ec2["axes"]
+            lens = [[shape[a] // (case["pre_arg"][a] if case["pre"] == "rebinned" else 1), shape[b] // (case["pre_arg"][b] if case["pre"] == "rebinned" else 1)]]
+            if src is not cube or case["pre"] != "rebinned":
+                lens.append([src.data.shape[a] // bins[a], src.data.shape[b] // bins[b]])
+            if any(x != y for x, y in lens):
+                finding = "q2-grid-shapes"
+        if ec2 and ec2["k"] == "sky2" and isinstance(e, ValueError):
+            # known finding: a 2-D per-pixel SkyCoord table with a dimension of length 1 has no model
+            a, b = ec2["axes"]
+            lens = [src.data.shape[a], src.data.shape[b], src.data.shape[a] // bins[a], src.data.shape[b] // bins[b]]
+            if case["pre"] == "rebinned":
+                lens += [shape[a] // case["pre_arg"][a], shape[b] // case["pre_arg"][b]]
+            if 1 in lens:
+                finding = "sky2-length1"
         return {"out": {"t": "err", "e": exc_name(e)},
-                "oracle": {"ok": False, "why": f"rebin raised {exc_name(e)} for a valid bin shape", "finding": None}}
+                "oracle": {"ok": False, "why": f"rebin raised {exc_name(e)} for a valid bin shape", "finding": finding}}
     sshape = src.data.shape
     nout = [s // b for s, b in zip(sshape, bins)]
     sll, rll = src.wcs.low_level_wcs, r.wcs.low_level_wcs
@@ -162,6 +255,13 @@ def run(case):
             vs = [[k - 0.5 if i == a else 0.0 for i in range(nd)] for k in range(nout[a] + 1)]
             cor.append([p[a] for p in _base_pixels(rll, nd, vs, base)])
         out.update({"aff": aff, "centres": cen, "corners": cor})
+    # ---- coupled extra coords: through the mapping, output element j reports the source's value at its block centre
+    if ec2:
+        f = _coupled_fail(src, r, bins, nout)
+        if f:
+            why.append(f)
+            if ec2["k"] == "sky2" and "cannot be evaluated: ValueError" in f and 1 in [nout[ec2["axes"][0]], nout[ec2["axes"][1]]]:
+                return {"out": {"t": "err", "e": "ValueError"}, "oracle": {"ok": False, "why": f, "finding": "sky2-length1"}}
     # ---- extra coords
     if case["tabs"]:
         try:
